@@ -145,6 +145,13 @@ class Holder(object):
         return (yield from _body(td, env, sid))
 
 
+class FalsyHolder(Holder):
+    """an instance whose truth value is False (an empty container)"""
+
+    def __len__(self):
+        return 0
+
+
 @async_proxy()
 def proxied(td, env, sid):
     return afn.asynq(td, env, sid)
@@ -181,7 +188,7 @@ def run_loop(coro):
 
 
 def check(td, entry=0, sig=None):
-    """entry: 0 function, 1 method, 2 async_proxy"""
+    """entry: 0 function, 1 method, 2 async_proxy, 3 method of a falsy instance"""
     rec.clear_fail()
     prog.reset_globals()
     logging.disable(logging.CRITICAL)
@@ -197,6 +204,8 @@ def check(td, entry=0, sig=None):
                         v = afn(td, env, "0")
                     elif entry == 1:
                         v = Holder(3).m(td, env, "0")
+                    elif entry == 3:
+                        v = FalsyHolder(4).m(td, env, "0")
                     else:
                         v = proxied(td, env, "0")
                 else:
@@ -211,6 +220,8 @@ def check(td, entry=0, sig=None):
                                 return await afn.asyncio(td, env, "0")
                             elif entry == 1:
                                 return await Holder(3).m.asyncio(td, env, "0")
+                            elif entry == 3:
+                                return await FalsyHolder(4).m.asyncio(td, env, "0")
                             else:
                                 return await proxied.asyncio(td, env, "0")
                         finally:
@@ -250,7 +261,8 @@ def check(td, entry=0, sig=None):
 
 
 # slot menu for batch-free programs
-AMENU = 9
+AMENU = 10
+EXC_VALUE = E("an exception object returned as an ordinary value")
 
 
 def aslot(sel, i, v):
@@ -272,6 +284,9 @@ def aslot(sel, i, v):
         return ("leafx", v)
     if sel == 8:
         return ("meth" if i % 2 == 0 else "proxy", fam.plain_task("mp%d" % i, v))
+    if sel == 9:
+        # a task whose ordinary return value is an exception *object* (returned, not raised)
+        return TASK(fam.plain_task("ev%d" % i, EXC_VALUE))
     raise AssertionError(sel)
 
 
@@ -290,11 +305,11 @@ def mk(templates, nslots=3):
             steps.insert(1, ("synccall", fam.plain_task("sc", 1)))
         mid = TaskD("mid", SEQ(*steps), ret="result" if conc(res, 2) else "return")
         td = TaskD("root", SEQ(fam.guard(Y(4, TASK(mid), TASK(fam.plain_task("sib", vals[0]))), gm0), Y(0, CONST(1))))
-        return check(td, conc(entry, 3), sig=("c15", tt, tuple(sels), gm0, gm1, conc(entry, 3)))
+        return check(td, conc(entry, 4), sig=("c15", tt, tuple(sels), gm0, gm1, conc(entry, 4)))
     return f
 
 
-def params(nt, nslots=3, menu=AMENU, g0=2, g1=4, entry=2, res=True, sc=True):
+def params(nt, nslots=3, menu=AMENU, g0=2, g1=4, entry=3, res=True, sc=True):
     return ([I("t", 0, nt - 1), I("g0", 0, g0), I("g1", 0, g1), I("entry", 0, entry), I("res", 0, 1 if res else 0),
              I("sc", 0, 1 if sc else 0)]
             + [I("s%d" % i, 0, menu - 1) for i in range(nslots)] + [I("v%d" % i) for i in range(nslots)])
@@ -311,7 +326,7 @@ def conds(tier):
                         extra_pre=["_hm.core.unused_ok(%r, t, [s0, s1, s2])" % (T,), "g0 != 1"],
                         shard_filter=lambda t, g0, g1: g0 != 1))
         T3 = [5, 3]
-        out.append(Cond("prog3", mk(T3), params(len(T3), menu=7, g0=0, g1=2, entry=0, res=True, sc=False), pin=3,
+        out.append(Cond("prog3", mk(T3), params(len(T3), menu=AMENU, g0=0, g1=2, entry=0, res=True, sc=False), pin=3,
                         builds=("C",), budget=300, family="batch-free programs: 3-slot nested structures, result() "
                         "style return", encodes=ENC))
     else:
